@@ -362,6 +362,62 @@ int main(int argc, char **argv) {
             vh_class(ck, "width %zu", w);
         }
     }
+    /* signed helpers applied to operands narrower than 64 bits (int8_t / int16_t / int32_t variables, widths up to
+     * the operand's own size: the sign test then sees a promoted / sign-extended operand) and to an unsigned 64-bit
+     * operand. Stored through the 32-bit stream where the width allows it, else the 64-bit one. */
+    if (vh_section_begin("signed_narrow")) {
+#define SIGNED_NARROW(T, BITS, TAG)                                                                                  \
+    for (size_t w = 2; w <= (BITS); w++) {                                                                           \
+        if (!vh_case()) {                                                                                            \
+            continue;                                                                                                \
+        }                                                                                                            \
+        uint64_t lim = 1ULL << (w - 1);                                                                              \
+        size_t nv = value_alphabet(w - 1, vals);                                                                     \
+        uint64_t exh = w <= 17 ? lim : 0;                                                                            \
+        for (size_t k = 0; k < nv + exh; k++) {                                                                      \
+            uint64_t m = k < nv ? vals[k] : (uint64_t)(k - nv);                                                      \
+            if (m >= lim) {                                                                                          \
+                continue;                                                                                            \
+            }                                                                                                        \
+            for (int neg = 0; neg < 2; neg++) {                                                                      \
+                if (neg && m == 0) {                                                                                 \
+                    continue;                                                                                        \
+                }                                                                                                    \
+                int64_t v = neg ? -(int64_t)m : (int64_t)m;                                                          \
+                T x = (T)v;                                                                                          \
+                if (v < 0) {                                                                                         \
+                    _varintBitstreamPrepareSigned(x, w);                                                             \
+                }                                                                                                    \
+                uint64_t stored = (uint64_t)x & (w == 64 ? ~0ULL : ((1ULL << w) - 1));                               \
+                uint64_t words[3] = {~0ULL, 0, ~0ULL};                                                               \
+                if (w <= 32) {                                                                                       \
+                    bs32_set(words, 7, w, stored);                                                                   \
+                    stored = bs32_get(words, 7, w);                                                                  \
+                } else {                                                                                             \
+                    bs64_set(words, 7, w, stored);                                                                   \
+                    stored = bs64_get(words, 7, w);                                                                  \
+                }                                                                                                    \
+                T y = (T)stored;                                                                                     \
+                _varintBitstreamRestoreSigned(y, w);                                                                 \
+                if ((int64_t)y != v) {                                                                               \
+                    vh_fail("bitstream.signed", "roundtrip_mismatch", "untagged",                                    \
+                            "%s operand, width %zu value %" PRId64 ": stored 0x%" PRIx64 " restored %" PRId64, TAG, \
+                            w, v, stored, (int64_t)y);                                                               \
+                }                                                                                                    \
+                vh_count("calls", 4);                                                                                \
+                vh_count("cases", 1);                                                                                \
+            }                                                                                                        \
+        }                                                                                                            \
+        char ck[48];                                                                                                 \
+        snprintf(ck, sizeof ck, "signed/%s/w%zu", TAG, w);                                                           \
+        vh_class(ck, "%s operand width %zu", TAG, w);                                                                \
+    }
+        SIGNED_NARROW(int8_t, 8, "int8_t")
+        SIGNED_NARROW(int16_t, 16, "int16_t")
+        SIGNED_NARROW(int32_t, 32, "int32_t")
+        SIGNED_NARROW(uint64_t, 64, "uint64_t")
+#undef SIGNED_NARROW
+    }
     vh_write_out();
     return 0;
 }
